@@ -570,6 +570,10 @@ func (c *compiler) compileFunc(compilerScope compilerScopeType, Ast ast.Ast, Arg
 	newC.Code.Argcount = int32(len(Args.Args))
 	newC.Code.Kwonlyargcount = int32(len(Args.Kwonlyargs))
 
+	// Load decorators onto stack: they are evaluated first and stay
+	// below everything MAKE_FUNCTION consumes
+	c.Exprs(DecoratorList)
+
 	// Defaults
 	c.Exprs(Args.Defaults)
 
@@ -611,9 +615,6 @@ func (c *compiler) compileFunc(compilerScope compilerScopeType, Ast ast.Ast, Arg
 		num_annotations++ // include the tuple
 		c.LoadConst(annotations)
 	}
-
-	// Load decorators onto stack
-	c.Exprs(DecoratorList)
 
 	// Make function or closure, leaving it on the stack
 	posdefaults := uint32(len(Args.Defaults))
